@@ -21,7 +21,7 @@ RULE = (
     "one case = one extraction scenario (suspended generated program with nested generator-based managers and exit stacks / thread parked on a lock / suspended, current or dead greenlet / "
     "synthetic stack items with tuple, list, iterator and yields_frames unwrappers / arbitrary non-stack objects incl. hostile __repr__, __eq__, __class__, __getattr__, __len__, __bool__, __iter__ and hooks returning sequences whose protocol methods raise); the fault-free run records every dynamic "
     "invocation of unwrap_stackitem, FrameIterator.__next__, elaborate_frame, contexts_active_in_frame, elaborate_context, unwrap_context, unwrap_context_generator and gc.get_referents; "
-    "then every position k gets an injected Exception in turn (exhaustive for single faults of that scenario) and up to 12 sampled pairs. distinct = (scenario kind, hook, position class, nesting of the stack being built)"
+    "then every position k gets an injected Exception in turn (exhaustive for single faults of that scenario) and up to 16 sampled pairs (half of them 1-4 invocations apart). distinct = (scenario kind, hook, position class, nesting of the stack being built)"
 )
 ASSUMPTIONS = [
     "injected faults are Exception subclasses (BaseException and warnings-as-errors are outside the statement)",
@@ -655,9 +655,15 @@ def run(ctx):
                     rec.after = False
         # sampled pairs
         if n >= 2:
-            for _ in range(min(12, n)):
+            for _ in range(min(16, n)):
                 k1 = tape.choose(n)
-                k2 = tape.choose(n)
+                if tape.choose(2):
+                    # two faults close together (the same frame, context or exit-stack child)
+                    k2 = k1 + 1 + tape.choose(4)
+                    if k2 >= n:
+                        k2 = tape.choose(n)
+                else:
+                    k2 = tape.choose(n)
                 if k1 != k2:
                     inject(ctx, scn, rec, sorted([k1, k2]), st0, stacks0, base_errors)
                     ctx.stat("pairs_injected")
